@@ -1009,11 +1009,12 @@ namespace bluetoe {
         const std::size_t start_index = handle_mapping::first_index_by_handle( starting_handle );
         const bool only_16_bit_uuids = attribute_at( start_index ).uuid != bits( details::gatt_uuids::internal_128bit_uuid );
 
-        std::size_t ending_index = handle_mapping::first_index_by_handle( ending_handle );
-
         // if the ending handle points not on an existing attribute, the search will end at the next, lower handle
-        if ( ending_index != details::invalid_attribute_index && handle_mapping::handle_by_index( ending_index ) != ending_handle )
-            --ending_index;
+        const std::size_t ending_index = last_handle_index( ending_handle );
+
+        // no attribute within the range
+        if ( ending_index == details::invalid_attribute_index || ending_index < start_index )
+            return error_response( *input, details::att_error_codes::attribute_not_found, starting_handle, output, out_size );
 
         std::uint8_t*        write_ptr = &output[ 0 ];
         std::uint8_t* const  write_end = write_ptr + out_size;
@@ -1551,6 +1552,9 @@ namespace bluetoe {
     {
         const std::size_t last_index = last_handle_index( ending_handle );
 
+        if ( last_index == details::invalid_attribute_index )
+            return;
+
         for ( std::size_t index = handle_mapping::first_index_by_handle( starting_handle ); index <= last_index; ++index )
         {
             const details::attribute attr = attribute_at( index );
@@ -1677,9 +1681,14 @@ namespace bluetoe {
     {
         const std::size_t mapped = handle_mapping::first_index_by_handle( ending_handle );
 
-        return mapped == details::invalid_attribute_index
-            ? number_of_attributes - 1
-            : mapped;
+        if ( mapped == details::invalid_attribute_index )
+            return number_of_attributes - 1;
+
+        // if the ending handle points into a gap between two attributes, the attribute before the gap is the last one.
+        // If there is no attribute before the gap, the result is invalid_attribute_index.
+        return handle_mapping::handle_by_index( mapped ) == ending_handle
+            ? mapped
+            : mapped - 1;
     }
 
     template < typename ... Options >
